@@ -51,7 +51,7 @@ def check(ctx):
                 ctx.ob("R14.1", key, ok, body.loc(b), f"drop decrements by 1 with fetch_sub(_, {o}); needs a single atomic RMW with >= Release")
             else:
                 ctx.ob("R14.1", key + "|unexpected", False, body.loc(b), f"`references_count.{meth}` in {fname}: the count may only be moved by clone / increment_references / drop through single atomic RMWs")
-    ctx.floor("R14.1", 3)
+    ctx.floor("R14.1", 2)
     # every function of OgreArc that creates a handle value (aggregate OgreArc{inner}) from an existing one must increment
     # ------------------------------------------------------------------ R14.2 drop protocol
     kdrop = f"{ARC} as std::ops::Drop::drop"
@@ -108,9 +108,16 @@ def check(ctx):
     ctx.ob("R14.3", f"{kc}|returns-COUNT-handles", ok_ret, f"{body.f['file']}:{body.f['line']}", f"return type {body.locals[0]['ty']}", nontrivial=False)
     kcl = f"{ARC} as std::clone::Clone::clone"
     body = Body(fx.fn(kcl))
-    adds = [(b, c) for (b, c) in body.calls if (R.atomic_target(body, c) or (None, None, None))[1:] == ("references_count", "fetch_add")]
-    ok = len(adds) == 1 and util.on_every_return_path(body, adds[0][0]) and not util.in_loop(body, adds[0][0])
-    ctx.ob("R14.3", f"{kcl}|one-increment-per-handle", ok, f"{body.f['file']}:{body.f['line']}", "clone performs exactly one increment on every path before returning the new handle")
+    from mir import op_int as _op_int
+    adds = [(b, c) for (b, c) in body.calls if (R.atomic_target(body, c) or (None, None, None))[1:] == ("references_count", "fetch_add") and _op_int(c["args"][1]) == 1]
+    # the same thing through the bulk API: `increment_references(1)` (one reference) + one `raw_copy()` (one handle)
+    bulk = [(b, c) for (b, c) in body.calls if c.get("f") == ARC + "::increment_references"]
+    copies = [(b, c) for (b, c) in body.calls if c.get("f") == ARC + "::raw_copy"]
+    clone_via_bulk = not adds and len(bulk) == 1 and _op_int(bulk[0][1]["args"][1]) == 1 and len(copies) == 1 and util.on_every_return_path(body, copies[0][0])
+    if clone_via_bulk: adds = bulk
+    ok = len(adds) == 1 and util.on_every_return_path(body, adds[0][0]) and not util.in_loop(body, adds[0][0]) and (clone_via_bulk or not (bulk or copies))
+    ctx.ob("R14.3", f"{kcl}|one-increment-per-handle", ok, f"{body.f['file']}:{body.f['line']}", "clone performs exactly one increment (by one) on every path before returning the one new handle")
+    clone_ok = ok and clone_via_bulk
     # who may call the unsafe bulk API
     allowed = {R.MULTI_CHANNELS["multi.ogre_arc.atomic"] + " as " + R.T_PROD + "::send_derived", R.MULTI_CHANNELS["multi.ogre_arc.full_sync"] + " as " + R.T_PROD + "::send_derived"}
     for f in fx.fns:
@@ -118,6 +125,7 @@ def check(ctx):
             t = blk["term"]
             if t[0] == "Call" and t[1].get("f") in (ARC + "::raw_copy", ARC + "::increment_references"):
                 owner = f["owner_fn"]
+                if owner == kcl and clone_ok: continue      # Clone::clone built on increment_references(1) + raw_copy(): the pairing was just checked
                 ctx.ob("R14.3", f"{owner}|uses|{t[1]['fname']}", owner in allowed, f"{f['file']}:{t[1]['line']}",
                        f"unsafe `{t[1]['fname']}` used in {owner}; the only users whose pairing is checked (R03.4) are the two ogre_arc send_derived")
     for n in ("raw_copy", "increment_references"):
